@@ -156,6 +156,12 @@ func (s *Sched) record(y uint64, from, to int) {
 	}
 }
 
+// Current returns the task that is running now (valid only when called from that
+// task's goroutine, e.g. from a yield hook inside the code under test).
+//
+//go:norace
+func (s *Sched) Current() *Task { return s.tasks[s.cur] }
+
 // NextSeq hands out the global event sequence number to per-task logs.
 //
 //go:norace
@@ -274,6 +280,9 @@ func (s *Sched) Recorded() []Switch {
 	copy(out, s.rec[:s.nrec])
 	return out
 }
+
+// TaskPanic returns the panic value that escaped task t's body, if any.
+func (s *Sched) TaskPanic(t int) interface{} { return s.tasks[t].Panic }
 
 func (s *Sched) NumSwitches() int         { return s.nswitch }
 func (s *Sched) Yields() uint64           { return s.yieldNo }
